@@ -228,7 +228,7 @@ def replay_aliasing(concepts, case):
     for side, watched in pairs:
         objs0 = {'source': d, 'result': r, 'argument': o}[side]
         base = (list(objs0.objects), list(objs0.properties))
-        for fname, fa in followups(base[0], base[1], ['n', 'm'], ['q', 'r']):
+        for fname, fa in followups(base[0], base[1], ['on', 'om'], ['pq', 'pr']):
             d1, r1, o1 = build()
             tgt = {'source': d1, 'result': r1, 'argument': o1}[side]
             oth = {'source': d1, 'result': r1, 'argument': o1}[watched]
@@ -411,7 +411,7 @@ def _names_in(case):
                 walk(y)
     walk(case['op'][1:])
     seen = []
-    for x in out + ['n', 'q']:
+    for x in out + ['on', 'pq']:
         if x not in seen:
             seen.append(x)
     return seen
